@@ -91,6 +91,13 @@ def realnum(v):
     return Fraction(v)
 
 
+def dict_same_except(d1, d0, *keys):
+    ks = set(keys)
+    if isinstance(d1, (set, frozenset)):
+        return {x for x in d1 if x not in ks} == {x for x in d0 if x not in ks}
+    return {k: v for k, v in d1.items() if k not in ks} == {k: v for k, v in d0.items() if k not in ks}
+
+
 def held(lock): return True     # lock discipline clauses are VC-only
 def last(log): return log[-1]
 def nth(rec, j, *a): return rec[j]
@@ -99,6 +106,7 @@ def has_dyn(obj, name): return hasattr(obj, name)
 def is_prefix(a, b): return list(b[:len(a)]) == list(a)
 def forall_str(f): return True     # quantifiers over all strings are VC-only (loop invariants, representation invariants)
 def forall_int(f): return True
+def forall_obj(f): return True
 
 
 def enum_owned(e, v):
